@@ -58,6 +58,11 @@ func (l *lengthFieldPrepender) HandleWrite(ctx netty.OutboundContext, message ne
 	}
 
 	// head buffer
+	// the length must fit into the length field, otherwise the header would
+	// silently be truncated and disagree with the body
+	utils.AssertIf(length < 0 || (l.lengthFieldLength < 8 && int64(length) >= int64(1)<<(8*uint(l.lengthFieldLength))),
+		"length (%d) does not fit into a length field of %d bytes", length, l.lengthFieldLength)
+
 	lengthBuff := packFieldLength(l.byteOrder, l.lengthFieldLength, int64(length))
 
 	// HEAD | BODY
